@@ -314,12 +314,13 @@ func sortScenario(r *mc.Registry, maxLen int) {
 	sc := r.Seq("sort", func(x *mc.X) {
 		c := cs[x.Choose(len(cs), "container")]
 		o := os[x.Choose(len(os), "ord")]
+		op := mc.Pick(x, "operation", []string{"Sort", "Min", "Max"}) // one per execution: a defect in one cannot hide the others
 		n := x.Choose(maxLen+1, "length")
 		in := make(fp.Seq[el], n)
 		for i := range in {
 			in[i] = mc.Pick(x, "element", alphabet)
 		}
-		x.Tag(c.pkg + ".Sort/Min/Max with " + o.name)
+		x.Tag(c.pkg + "." + op + " with " + o.name)
 		call := func(what string, f func()) {
 			if p := mc.Catch(f); p != nil {
 				x.Fail(c.pkg+"."+what+"/panic", "%s.%s(%s, %s) panicked: %v", c.pkg, what, showEls(in), o.name, p)
@@ -327,17 +328,24 @@ func sortScenario(r *mc.Registry, maxLen int) {
 		}
 		var out fp.Seq[el]
 		var mn, mx fp.Option[el]
-		call("Sort", func() { out = c.sort(in, o.o) })
-		call("Min", func() { mn = c.min(in, o.o) })
-		call("Max", func() { mx = c.max(in, o.o) })
-		x.Logf("%s.Sort(%s, %s) = %s  Min=%v Max=%v", c.pkg, showEls(in), o.name, showEls(out), mn, mx)
-		if multiset(out) != multiset(in) {
-			x.Fail(c.pkg+".Sort/not-a-permutation", "%s.Sort(%s, %s) = %s is not a permutation of the input", c.pkg, showEls(in), o.name, showEls(out))
-		}
-		for i := 0; i+1 < len(out); i++ {
-			if o.cmp(out[i], out[i+1]) > 0 {
-				x.Fail(c.pkg+".Sort/not-ordered", "%s.Sort(%s, %s) = %s: element %d is greater than element %d", c.pkg, showEls(in), o.name, showEls(out), i, i+1)
+		switch op {
+		case "Sort":
+			call("Sort", func() { out = c.sort(in, o.o) })
+			x.Logf("%s.Sort(%s, %s) = %s", c.pkg, showEls(in), o.name, showEls(out))
+			if multiset(out) != multiset(in) {
+				x.Fail(c.pkg+".Sort/not-a-permutation", "%s.Sort(%s, %s) = %s is not a permutation of the input", c.pkg, showEls(in), o.name, showEls(out))
 			}
+			for i := 0; i+1 < len(out); i++ {
+				if o.cmp(out[i], out[i+1]) > 0 {
+					x.Fail(c.pkg+".Sort/not-ordered", "%s.Sort(%s, %s) = %s: element %d is greater than element %d", c.pkg, showEls(in), o.name, showEls(out), i, i+1)
+				}
+			}
+		case "Min":
+			call("Min", func() { mn = c.min(in, o.o) })
+			x.Logf("%s.Min(%s, %s) = %v", c.pkg, showEls(in), o.name, mn)
+		case "Max":
+			call("Max", func() { mx = c.max(in, o.o) })
+			x.Logf("%s.Max(%s, %s) = %v", c.pkg, showEls(in), o.name, mx)
 		}
 		checkExt := func(what string, got fp.Option[el], dir int) {
 			if len(in) == 0 {
@@ -362,9 +370,13 @@ func sortScenario(r *mc.Registry, maxLen int) {
 				x.Fail(c.pkg+"."+what+"/not-an-element", "%s.%s(%s, %s) = %v is not an element of the input", c.pkg, what, showEls(in), o.name, g)
 			}
 		}
-		checkExt("Min", mn, 1)
-		checkExt("Max", mx, -1)
-		x.Observe(o.name, showEls(out), mn, mx)
+		switch op {
+		case "Min":
+			checkExt("Min", mn, 1)
+		case "Max":
+			checkExt("Max", mx, -1)
+		}
+		x.Observe(op, o.name, showEls(out), mn, mx)
 		inv, ties := false, false
 		for i := range in {
 			for j := i + 1; j < len(in); j++ {
@@ -384,12 +396,12 @@ func sortScenario(r *mc.Registry, maxLen int) {
 			x.Tag("sort: input has distinguishable elements that tie under the Ord")
 		}
 	})
-	sc.SplitDepth = 4
+	sc.SplitDepth = 5
 }
 
 func main() {
 	mc.Main("C10", func(r *mc.Registry) {
-		r.Rule = "grammar/arity: execution = (Ord instance expression, a, b, c) over the whole value domain of the instance's type (all triples; the arity blocks take c from 3 values and a, b from all values: base, alternative representation, all-different, and differs-at-position-k-only for every k <= 12 in the quick tier and every k in the thorough tier, where pairs sharing a prefix longer than 14 get a reduced check: Less both ways and Compare against the lexicographic demand); each execution calls Less, Eqv, Compare, LessEq, Min, Max of the library's instance and checks trichotomy, transitivity, consistency and the constructor's structural demand; non-trivial = three different domain elements; distinct outcome = (instance, order pattern of the triple). sort: execution = (container, Ord, input sequence) for ALL sequences up to the length bound over 3 keys x 2 payloads; Sort must return a permutation ordered by the reference comparison, Min/Max any least/greatest element or None for empty; non-trivial = the input has an inversion"
+		r.Rule = "grammar/arity: execution = (Ord instance expression, a, b, c) over the whole value domain of the instance's type (all triples; the arity blocks take c from 3 values and a, b from all values: base, alternative representation, all-different, and differs-at-position-k-only for every k <= 12 in the quick tier and every k in the thorough tier, where pairs sharing a prefix longer than 14 get a reduced check: Less both ways and Compare against the lexicographic demand); each execution calls Less, Eqv, Compare, LessEq, Min, Max of the library's instance and checks trichotomy, transitivity, consistency and the constructor's structural demand; non-trivial = three different domain elements; distinct outcome = (instance, order pattern of the triple). sort: execution = (container, Ord, Sort|Min|Max, input sequence) for ALL sequences up to the length bound over 3 keys x 2 payloads; Sort must return a permutation ordered by the reference comparison, Min/Max any least/greatest element or None for empty; non-trivial = the input has an inversion"
 		r.Assumptions = []string{
 			"NaN is excluded from the float domains",
 			"which of None/Some and nil/non-nil sorts first is not fixed by the property: only that they differ, and the order laws, are demanded",
